@@ -496,6 +496,10 @@ def run_history(sc, want_idempotence=True, faults=None, audits=True):
                 results.append(r2)
                 if r2[0] == 'INTERNAL':
                     violations.append(viol('I-internal', 'internal error escaped: %s: %s [second %s]' % (r2[1], r2[2], what), sig=r2[1]))
+                elif r2[0] != 'ok' and u2.get('api') == 'cli' and not cli_discovers_root_top(w.root, scope):
+                    # the first update changed what upward discovery finds from this sub-directory (e.g. it un-compressed
+                    # a Manifest whose IGNORE covers the start path): where discovery lands is C15's subject
+                    zones['cli-discovery-elsewhere-after-update'] = zones.get('cli-discovery-elsewhere-after-update', 0) + 1
                 elif r2[0] != 'ok':
                     violations.append(viol('idem.second-update-failed', 'second %s %s' % (what, describe(r2)), sig='%s:%s' % (r2[0], r2[1])))
                 else:
